@@ -50,7 +50,7 @@ TIERS = {
         "top": dict(MAXFILES=0, PERMUTE="TRUE", TOPKINDS=ALL_TOP, P3KINDS='{"py","so","ns","init","initpyi","pkgutil"}', PTHFORMS='{"abs","rel"}', DROP="{}"),
         "sub": dict(MAXFILES=4, PERMUTE="TRUE", TOPKINDS="{}", P3KINDS="{}", PTHFORMS='{"abs"}', DROP="{}"),
         "ns": dict(MAXFILES=3, PERMUTE="TRUE", TOPKINDS="{}", P3KINDS="{}", PTHFORMS='{"abs"}', DROP="{}"),
-        "stubs": dict(MAXFILES=1, PERMUTE="TRUE", TOPKINDS='{"absent","py","init","initboth","ns"}', P3KINDS="{}", PTHFORMS='{"abs"}', DROP="{}"),
+        "stubs": dict(MAXFILES=2, PERMUTE="TRUE", TOPKINDS='{"absent","py","init","initboth","ns"}', P3KINDS="{}", PTHFORMS='{"abs"}', DROP="{}"),
     },
 }
 EXPECTED_CAUSES = {
@@ -318,6 +318,8 @@ def check_chunk(args) -> dict:
             extra = set()
             for case in group["cases"]:
                 real = fs.run_griffe(griffe, lay, listing_of(case), request_of(case), find_stubs=bool(case.get("stubs")), flip=flip_of(case))
+                if real["outcome"].startswith("NotInCollection:"):
+                    real["outcome"] = "KeyError"      # the package was loaded under another name: load() raised KeyError('pkg')
                 rr.append(real)
                 for n in real["tree"]:
                     extra.add(".".join(n["path"]))
@@ -381,8 +383,6 @@ def check_group(res: dict, group: dict, lay: fs.Layout, reals: list, o: dict):
         tree = norm_tree(real["tree"])
         ident_case = {"kind": "group", "layout": group["layout"], "case": slim(case), "canon": slim(base[0]) if base else None}   # canon carries `py`
         sigbase = {"fam": fam, "causes": causes, "request": "path" if case["request"].startswith("path") else case["request"]}
-        if outcome.startswith("NotInCollection:"):
-            outcome = "KeyError"          # the package was loaded under another name: load() raised KeyError('pkg')
         if outcome not in ("ok", "ModuleNotFoundError", "KeyError"):
             res["violations"].append((dict(sigbase, clause="total", predicted=False, as_model=False), f"load raised/ended with {outcome} {real.get('detail', '')} on {ident(case)}", ident_case))
             continue
